@@ -6,6 +6,7 @@
 mod c01;
 mod c02;
 mod c03;
+mod c04;
 mod c05;
 mod c06;
 mod c07;
@@ -47,6 +48,7 @@ fn main() {
                 "C01" => c01::run(seed, thorough, &mut out),
                 "C02" => c02::run(seed, thorough, &mut out),
                 "C03" => c03::run(seed, thorough, &mut out),
+                "C04" => c04::run(seed, thorough, &mut out),
                 "C05" => c05::run(seed, thorough, &mut out),
                 "C06" => c06::run(seed, thorough, &mut out),
                 "C07" => c07::run(seed, thorough, &mut out),
@@ -78,6 +80,7 @@ fn main() {
                     "C01" => c01::replay(line, &mut out),
                     "C02" => c02::replay(line, &mut out),
                     "C03" => c03::replay(line, &mut out),
+                    "C04" => c04::replay(line, &mut out),
                     "C05" => c05::replay(line, &mut out),
                     "C06" => c06::replay(line, &mut out),
                     "C07" => c07::replay(line, &mut out),
